@@ -14,9 +14,11 @@ import (
 	"net"
 	"net/http"
 	"net/http/httptest"
+	"net/http/httptrace"
 	"net/netip"
 	"net/url"
 	"os"
+	"runtime"
 	"sort"
 	"strings"
 	"sync"
@@ -51,8 +53,11 @@ type view struct {
 
 // stand is one linked-IP handler in front of the recording backend.
 type stand struct {
-	base    string // path of the target URL
-	h       http.Handler
+	base string // path of the target URL
+	h    http.Handler
+	// shared names the stands whose handlers were built from one and the same
+	// *url.URL value, as the handlers of all bind addresses are in websvc.New.
+	shared  string
 	tcpAddr string
 	// svc is true for the stand that is a real websvc.Service (websvc.New +
 	// Start): the handler is mounted by the production code and cannot be
@@ -70,17 +75,26 @@ type world struct {
 	stands  []*stand
 	ua      string
 	svc     *websvc.Service
+	// svcIdx are the stands served by the real websvc.Service, twinIdx is the
+	// bare stand that shares its target URL value with stand 0.
+	svcIdx  []int
+	twinIdx int
 
 	nextID int
 	// recent holds the last cases with their outcomes, by ID; late holds
 	// backend records that arrived after their case had been evaluated.
 	recent map[int]*pending
 	late   []seen
+	// byPath and byIP index the requests that are in flight together
+	// (interleaved and concurrent campaigns), to name the other request in the
+	// description of a violation; they do not influence any verdict.
+	byPath map[string]*reqCase
+	byIP   map[string]*reqCase
 }
 
 // freePort returns a currently free TCP port outside the ephemeral range.
-func freePort() (ap netip.AddrPort) {
-	for i := 0; i < 2000; i++ {
+func freePort(skip int) (ap netip.AddrPort) {
+	for i := skip; i < 2000; i++ {
 		port := 20000 + (os.Getpid()*31+i*7919)%12000
 		l, err := net.Listen("tcp", fmt.Sprintf("127.0.0.1:%d", port))
 		if err != nil {
@@ -93,33 +107,37 @@ func freePort() (ap netip.AddrPort) {
 	panic("no free port")
 }
 
-// startService adds a stand served by websvc.New(...).Start, the production
-// mounting of the linked-IP handler.
+// startService adds the stands served by websvc.New(...).Start, the production
+// mounting of the linked-IP handler: one service with two bind addresses, that
+// is two handlers built from the one configured TargetURL.
 func (w *world) startService() {
 	u, err := url.Parse(w.backend.URL)
 	hlib.Must(err)
-	ap := freePort()
+	aps := []netip.AddrPort{freePort(0), freePort(1000)}
 	w.svc = websvc.New(&websvc.Config{
-		LinkedIP:      &websvc.LinkedIPServer{TargetURL: u, Bind: []*websvc.BindData{{Address: ap}}},
+		LinkedIP:      &websvc.LinkedIPServer{TargetURL: u, Bind: []*websvc.BindData{{Address: aps[0]}, {Address: aps[1]}}},
 		StaticContent: http.NotFoundHandler(),
 		DNSCheck:      http.NotFoundHandler(),
 		ErrColl:       errColl{},
 		Timeout:       10 * time.Second,
 	})
 	hlib.Must(w.svc.Start(context.Background()))
-	for i := 0; ; i++ {
-		conn, err := net.Dial("tcp", ap.String())
-		if err == nil {
-			_ = conn.Close()
+	for _, ap := range aps {
+		for i := 0; ; i++ {
+			conn, err := net.Dial("tcp", ap.String())
+			if err == nil {
+				_ = conn.Close()
 
-			break
+				break
+			}
+			if i > 500 {
+				panic("websvc linked-ip server did not come up: " + err.Error())
+			}
+			time.Sleep(10 * time.Millisecond)
 		}
-		if i > 500 {
-			panic("websvc linked-ip server did not come up: " + err.Error())
-		}
-		time.Sleep(10 * time.Millisecond)
+		w.svcIdx = append(w.svcIdx, len(w.stands))
+		w.stands = append(w.stands, &stand{base: "", tcpAddr: ap.String(), svc: true, shared: "service"})
 	}
-	w.stands = append(w.stands, &stand{base: "", tcpAddr: ap.String(), svc: true})
 }
 
 func newWorld() (w *world) {
@@ -130,12 +148,27 @@ func newWorld() (w *world) {
 		w.recs = append(w.recs, seen{Method: r.Method, URI: r.RequestURI, Path: r.URL.Path, Host: r.Host, Hdr: r.Header.Clone()})
 		w.mu.Unlock()
 		rw.Header().Set("Server", "backend")
+		if r.Header.Get(closeHdr) != "" {
+			// The backend closes the connection after this answer, so that the
+			// proxy's transport has one idle connection less.
+			rw.Header().Set("Connection", "close")
+		}
 		_, _ = io.WriteString(rw, "backend-ok")
 	}))
-	for _, base := range []string{"", "/api", "/v1/"} {
+	// The first base path is used twice with one and the same *url.URL value:
+	// stand 0 and its twin (the last bare stand).
+	var first *url.URL
+	for i, base := range []string{"", "/api", "/v1/", ""} {
 		u, err := url.Parse(w.backend.URL + base)
 		hlib.Must(err)
 		st := &stand{base: base}
+		switch i {
+		case 0:
+			first, st.shared = u, "bare"
+		case 3:
+			u, st.shared = first, "bare"
+			w.twinIdx = i
+		}
 		inner := websvc.VerifC19LinkedIPHandler(u, errColl{}, "verif", 5*time.Second)
 		// The snapshot wrapper is the only thing between the server and the
 		// handler, like in websvc.New, where the handler is mounted on a bare
@@ -186,12 +219,20 @@ type reqCase struct {
 	Remote string  `json:"remote,omitempty"` // in-process only
 	WantIP string  `json:"want_ip,omitempty"`
 	BadRem bool    `json:"bad_remote,omitempty"`
+	// Body is the request body (sent with methods that carry one).
+	Body string `json:"body,omitempty"`
 	// ID is put on the wire as X-Verif-Case, so that every record of the
 	// backend can be attributed to the request that caused it.
 	ID int `json:"id,omitempty"`
+	// InFlightWith describes the other requests that were in flight together
+	// with this one (interleaved and concurrent campaigns).
+	InFlightWith string `json:"in_flight_with,omitempty"`
 }
 
 const caseHdr = "X-Verif-Case"
+
+// closeHdr asks the recording backend to close the connection.
+const closeHdr = "X-Verif-Close"
 
 func (c *reqCase) raw() []byte {
 	var b bytes.Buffer
@@ -203,9 +244,12 @@ func (c *reqCase) raw() []byte {
 		fmt.Fprintf(&b, "%s: %d\r\n", caseHdr, c.ID)
 	}
 	if c.Method == "POST" || c.Method == "PUT" || c.Method == "PATCH" {
-		b.WriteString("Content-Length: 0\r\n")
+		fmt.Fprintf(&b, "Content-Length: %d\r\n", len(c.Body))
 	}
 	b.WriteString("\r\n")
+	if c.Method == "POST" || c.Method == "PUT" || c.Method == "PATCH" {
+		b.WriteString(c.Body)
+	}
 
 	return b.Bytes()
 }
@@ -213,6 +257,9 @@ func (c *reqCase) raw() []byte {
 func (c *reqCase) canon() string {
 	var b strings.Builder
 	fmt.Fprintf(&b, "%d|%v|%s|%s|%s", c.Stand, c.TCP, c.Method, c.Target, c.Remote)
+	if c.Body != "" {
+		fmt.Fprintf(&b, "|body:%s", c.Body)
+	}
 	for _, kv := range c.Hdrs {
 		fmt.Fprintf(&b, "|%s:%s", kv.K, kv.V)
 	}
@@ -537,6 +584,13 @@ func checkForwardedPath(r *hlib.Result, method, clientPath, backendRel string, r
 func (w *world) oracle(r *hlib.Result, c *reqCase, o outcome) {
 	replay := map[string]any{"case": c, "raw_request": string(c.raw()), "status": o.status, "backend_saw": o.recs,
 		"how": "send raw_request to an http.Server whose Handler is websvc.linkedIPHandler(target = recording backend + base path)"}
+	if c.InFlightWith != "" {
+		replay["how"] = "requests in flight together, all through websvc.linkedIPHandler(target = recording backend + base path of the stand; " +
+			"stand 0 and the last bare stand are two handlers built from one *url.URL value, like the handlers of several bind addresses in websvc.New): " +
+			c.InFlightWith + ". '#a ... [at its P: #b ...]' means: request #b is served completely, in-process, from inside the hook P of request #a " +
+			"(rw.* = method of the http.ResponseWriter given to ServeHTTP, Body.Read = the request body, every other P = the net/http/httptrace.ClientTrace " +
+			"hook of that name in the request's context); no goroutines are needed. 'round ...' means real parallel requests"
+	}
 	if o.panicked != nil {
 		r.Violate("handler-panic", fmt.Sprintf("handler panicked: %v", o.panicked), replay)
 
@@ -579,6 +633,15 @@ func (w *world) oracle(r *hlib.Result, c *reqCase, o outcome) {
 		r.Violate("forwarded-method-changed", fmt.Sprintf("client sent %s, backend saw %s", o.v.Method, b.Method), replay)
 	}
 	checkForwardedPath(r, b.Method, o.v.Path, b.Path[len(base):], replay)
+	// The request that reaches the backend is the client's own: the decoded
+	// path below the target's base path is the decoded path the client sent.
+	if own := "/" + strings.TrimPrefix(o.v.Path, "/"); b.Path[len(base):] != own {
+		what := fmt.Sprintf("client %s sent %s %q, the backend was contacted for %s %q on its behalf", c.WantIP, o.v.Method, own, b.Method, b.Path[len(base):])
+		if other := w.byPath[b.Path[len(base):]]; other != nil && other != c {
+			what += fmt.Sprintf(": the path of the request of client %s that was in flight at the same time", other.WantIP)
+		}
+		r.Violate("forwarded-path-not-the-clients:"+pathClass(o.v.Path), what, replay)
+	}
 	// The raw request line of the backend must decode to the same path.
 	if u, err := url.ParseRequestURI(b.URI); err != nil || u.Path != b.Path {
 		r.Violate("backend-uri-mismatch", fmt.Sprintf("backend request URI %q does not decode to %q", b.URI, b.Path), replay)
@@ -599,7 +662,13 @@ func (w *world) oracle(r *hlib.Result, c *reqCase, o outcome) {
 	case len(got) == 0:
 		r.Violate("client-ip-header-missing", fmt.Sprintf("forwarded request carries no X-Connecting-IP (peer %s)", c.WantIP), replay)
 	case len(got) != 1 || got[0] != c.WantIP:
-		r.Violate("client-ip-header-wrong", fmt.Sprintf("forwarded X-Connecting-IP = %q, peer is %s", got, c.WantIP), replay)
+		what := fmt.Sprintf("forwarded X-Connecting-IP = %q, peer is %s", got, c.WantIP)
+		if len(got) == 1 {
+			if other := w.byIP[got[0]]; other != nil && other != c {
+				what += fmt.Sprintf(": the address of the peer that sent %s %q at the same time", other.Method, other.Target)
+			}
+		}
+		r.Violate("client-ip-header-wrong", what, replay)
 	}
 	for _, n := range forwardingNames {
 		if vs, ok := b.Hdr[n]; ok {
@@ -842,7 +911,7 @@ type pending struct {
 	o outcome
 }
 
-func classify(r *hlib.Result, c *reqCase, o outcome) (nontrivial bool) {
+func (w *world) classify(r *hlib.Result, c *reqCase, o outcome) (nontrivial bool) {
 	switch {
 	case !o.parsed && o.status == 200 && c.Method == "OPTIONS" && c.Target == "*":
 		r.Count("req.options-star-answered-by-net/http")
@@ -904,7 +973,7 @@ func classify(r *hlib.Result, c *reqCase, o outcome) (nontrivial bool) {
 	if c.Stand != 0 {
 		r.Count("target.with-base-path-or-real-service")
 	}
-	if c.Stand == 3 {
+	if w.stands[c.Stand].svc {
 		r.Count("target.real-websvc-service")
 		if len(o.recs) > 0 {
 			r.Count("target.real-websvc-service.forwarded")
@@ -967,7 +1036,7 @@ func (w *world) reqCampaign(o *hlib.Opts, r *hlib.Result, m *hlib.Model, cases [
 		if len(w.late) > 0 {
 			w.settleLate(r)
 		}
-		r.Case(c.canon(), classify(r, c, out))
+		r.Case(c.canon(), w.classify(r, c, out))
 		if len(out.recs) > 0 {
 			r.Sample(map[string]any{"request": strings.SplitN(string(c.raw()), "\r\n", 2)[0], "headers": c.Hdrs, "peer": c.WantIP,
 				"backend_path": out.recs[0].Path, "backend_headers": showHdrs(out.recs[0].Hdr)}, 5)
@@ -1060,127 +1129,732 @@ func editCases(rng *rand.Rand, n int) (cs []*reqCase) {
 	return cs
 }
 
-// ----- concurrent requests from different peers (oracle only) -----
+// ----- requests in flight together: identities, evaluation -----
 
-// concCampaign sends requests from several peers at the same time through one
-// handler and checks that every request that reached the backend carries the
-// address of its own peer.  Requests are correlated by an X-Custom marker.
-func (w *world) concCampaign(o *hlib.Opts, r *hlib.Result, rng *rand.Rand) {
-	workers, per := 8, 1000
+// idIP is the peer address of the in-process case with the given ID: every
+// case of the interleaved and concurrent campaigns has its own address, device
+// ID (path segment) and marker (X-Verif-Case), so that a backend request
+// assembled from two client requests shows.
+func idIP(id int, v6 bool) (ip, remote string) {
+	if v6 {
+		ip = fmt.Sprintf("2001:db8:19::%x", id)
+
+		return ip, "[" + ip + "]:4711"
+	}
+	ip = fmt.Sprintf("198.%d.%d.%d", 18+id>>16&1, id>>8&255, id&255)
+
+	return ip, ip + ":4711"
+}
+
+func idIPOf(id int) (remote, ip string) {
+	ip, remote = idIP(id, false)
+
+	return remote, ip
+}
+
+// flightKinds are the kinds of requests of the in-flight campaigns: the four
+// documented requests and requests that must be answered locally.
+var flightKinds = []struct {
+	method, format string
+	forward        bool
+}{
+	{"GET", "/linkip/d%d/e%d", true},
+	{"GET", "/linkip/d%d/e%d/status", true},
+	{"POST", "/ddns/d%d/e%d/h%d.example.org", true},
+	{"POST", "/linkip/d%d/e%d", true},
+	{"GET", "/linkip/d%d/e%d/other", false},
+	{"PUT", "/ddns/d%d/e%d/h%d.example.org", false},
+	{"GET", "/ddns/d%d/e%d/h%d.example.org", false},
+	{"POST", "/linkip/d%d/e%d/status", false},
+	{"GET", "/linkip/d%d/../e%d", false},
+	{"GET", "/robots.txt", false},
+}
+
+// genFlightCase returns a case with its own identity.  kind < 0 chooses the
+// kind at random (documented requests three times out of four).
+func (w *world) genFlightCase(rng *rand.Rand, standIdx, kind int) (c *reqCase) {
+	w.nextID++
+	id := w.nextID
+	if kind < 0 {
+		kind = rng.IntN(4)
+		if rng.IntN(4) == 0 {
+			kind = 4 + rng.IntN(len(flightKinds)-4)
+		}
+	}
+	k := flightKinds[kind]
+	c = &reqCase{Stand: standIdx, ID: id, Method: k.method}
+	c.Target = k.format
+	if n := strings.Count(k.format, "%d"); n > 0 {
+		args := make([]any, n)
+		for i := range args {
+			args[i] = id
+		}
+		c.Target = fmt.Sprintf(k.format, args...)
+	}
+	c.WantIP, c.Remote = idIP(id, rng.IntN(4) == 0)
+	if rng.IntN(12) == 0 {
+		// an unusable peer address: 500, never forwarded
+		c.Remote, c.WantIP, c.BadRem = c.WantIP+"]:5", "", true
+	}
+	for _, n := range []string{"X-Connecting-IP", "X-Real-IP", "X-Forwarded-For", "CF-Connecting-IP", "Forwarded", "True-Client-IP"} {
+		if rng.IntN(3) == 0 {
+			c.Hdrs = append(c.Hdrs, hdrKV{n, pick(rng, []string{"6.6.6.6", "198.18.0.1", "for=6.6.6.6"})})
+		}
+	}
+	if rng.IntN(4) == 0 {
+		c.Hdrs = append(c.Hdrs, hdrKV{"Connection", pick(rng, []string{"X-Connecting-IP", "close", "x-request-id, X-Connecting-Ip", "keep-alive"})})
+	}
+	if rng.IntN(3) == 0 {
+		c.Hdrs = append(c.Hdrs, hdrKV{"X-Custom", fmt.Sprintf("m%d", id)})
+	}
+	if c.Method != "GET" && rng.IntN(2) == 0 {
+		c.Body = fmt.Sprintf("ip=%d", id)
+	}
+
+	return c
+}
+
+// parseCase parses the raw request of a case like the server would.
+func parseCase(c *reqCase) (req *http.Request, v view) {
+	req, err := http.ReadRequest(bufio.NewReader(bytes.NewReader(c.raw())))
+	hlib.Must(err)
+	req.RemoteAddr = c.Remote
+
+	return req, view{Method: req.Method, Path: req.URL.Path, Remote: c.Remote, Hdr: req.Header.Clone()}
+}
+
+// evaluate runs the oracle, the bookkeeping and the model comparison for cases
+// that were served outside w.run.  The backend records are attributed by the
+// X-Verif-Case marker; the oracle then checks method, path and client address
+// of every record against the very request that carried the marker, so a
+// backend request put together from two client requests fails whichever part
+// was taken from the other one.
+func (w *world) evaluate(r *hlib.Result, m *hlib.Model, ps []*pending, recs []seen, bucket string) {
+	if w.recent == nil {
+		w.recent = map[int]*pending{}
+	}
+	byID := map[string]*pending{}
+	w.byPath, w.byIP = map[string]*reqCase{}, map[string]*reqCase{}
+	for _, p := range ps {
+		byID[fmt.Sprint(p.c.ID)] = p
+		w.recent[p.c.ID] = p
+		if p.o.parsed {
+			w.byPath["/"+strings.TrimPrefix(p.o.v.Path, "/")] = p.c
+		}
+		if p.c.WantIP != "" && !p.c.TCP {
+			w.byIP[p.c.WantIP] = p.c
+		}
+	}
+	for _, rec := range recs {
+		if p := byID[rec.Hdr.Get(caseHdr)]; p != nil {
+			p.o.recs = append(p.o.recs, rec)
+		} else {
+			w.late = append(w.late, rec)
+		}
+	}
+	batch := make([]pending, 0, len(ps))
+	for _, p := range ps {
+		w.oracle(r, p.c, p.o)
+		nontrivial := w.classify(r, p.c, p.o)
+		r.Case(bucket+"|"+p.c.canon()+"|"+p.c.InFlightWith, nontrivial)
+		if len(p.o.recs) > 0 {
+			r.Count(bucket + ".forwarded")
+		}
+		batch = append(batch, *p)
+	}
+	w.flush(r, m, batch)
+	w.settleLate(r)
+	w.byPath, w.byIP = nil, nil
+}
+
+// ----- interleaved requests: deterministic schedules -----
+
+// ilvPoints are the points of a request in flight at which the harness can
+// serve other requests completely, all of them reached through public API: the
+// ResponseWriter (Header is the first thing ServeHTTP calls; CloseNotify is
+// asked by httputil.ReverseProxy before it clones the request and runs
+// Rewrite), net/http/httptrace hooks carried by the request context (GetConn …
+// GotFirstResponseByte: the phases of the transport between Rewrite and the
+// backend's answer) and the request body.
+var ilvPoints = []string{"rw.Header", "rw.CloseNotify", "GetConn", "ConnectStart", "ConnectDone", "GotConn",
+	"WroteHeaderField", "WroteHeaders", "Body.Read", "WroteRequest", "GotFirstResponseByte", "rw.WriteHeader"}
+
+// ilvNode is a request and the requests that are served completely when it
+// reaches the point At for the first time.
+type ilvNode struct {
+	C    *reqCase   `json:"request"`
+	At   string     `json:"at,omitempty"`
+	Kids []*ilvNode `json:"then_serve,omitempty"`
+
+	fired bool
+	o     outcome
+}
+
+func (n *ilvNode) describe(b *strings.Builder) {
+	fmt.Fprintf(b, "#%d %s %s from %s on stand %d", n.C.ID, n.C.Method, n.C.Target, n.C.Remote, n.C.Stand)
+	if len(n.Kids) > 0 {
+		fmt.Fprintf(b, " [at its %s: ", n.At)
+		for i, k := range n.Kids {
+			if i > 0 {
+				b.WriteString("; then ")
+			}
+			k.describe(b)
+		}
+		b.WriteString("]")
+	}
+}
+
+func (n *ilvNode) walk(f func(*ilvNode)) {
+	f(n)
+	for _, k := range n.Kids {
+		k.walk(f)
+	}
+}
+
+// ilvRun is one schedule being executed.
+type ilvRun struct {
+	w       *world
+	mu      sync.Mutex
+	cond    *sync.Cond
+	running int
+	closed  bool
+}
+
+type hookRW struct {
+	rec  *httptest.ResponseRecorder
+	fire func(string)
+}
+
+func (h *hookRW) Header() http.Header         { h.fire("rw.Header"); return h.rec.Header() }
+func (h *hookRW) Write(b []byte) (int, error) { return h.rec.Write(b) }
+func (h *hookRW) WriteHeader(code int)        { h.fire("rw.WriteHeader"); h.rec.WriteHeader(code) }
+func (h *hookRW) Flush()                      { h.rec.Flush() }
+func (h *hookRW) CloseNotify() <-chan bool    { h.fire("rw.CloseNotify"); return make(chan bool) }
+
+type hookBody struct {
+	io.ReadCloser
+	fire func(string)
+}
+
+func (h *hookBody) Read(p []byte) (int, error) { h.fire("Body.Read"); return h.ReadCloser.Read(p) }
+
+// serve serves the request of n on its stand; when the request reaches n.At
+// for the first time, the children are served, one after the other, by the
+// goroutine that reached the point (the handler's, or the transport's dial,
+// write or read goroutine), which continues afterwards.
+func (run *ilvRun) serve(n *ilvNode) {
+	st := run.w.stands[n.C.Stand]
+	fire := func(pt string) {
+		if pt != n.At {
+			return
+		}
+		run.mu.Lock()
+		if n.fired || run.closed {
+			run.mu.Unlock()
+
+			return
+		}
+		n.fired = true
+		run.running++
+		run.mu.Unlock()
+		for _, k := range n.Kids {
+			run.serve(k)
+		}
+		run.mu.Lock()
+		run.running--
+		run.cond.Broadcast()
+		run.mu.Unlock()
+	}
+	req, v := parseCase(n.C)
+	trace := &httptrace.ClientTrace{
+		GetConn:              func(string) { fire("GetConn") },
+		GotConn:              func(httptrace.GotConnInfo) { fire("GotConn") },
+		ConnectStart:         func(_, _ string) { fire("ConnectStart") },
+		ConnectDone:          func(_, _ string, _ error) { fire("ConnectDone") },
+		WroteHeaderField:     func(string, []string) { fire("WroteHeaderField") },
+		WroteHeaders:         func() { fire("WroteHeaders") },
+		WroteRequest:         func(httptrace.WroteRequestInfo) { fire("WroteRequest") },
+		GotFirstResponseByte: func() { fire("GotFirstResponseByte") },
+	}
+	// context.Background has no Done channel, which makes ReverseProxy consult
+	// the ResponseWriter's CloseNotify.
+	req = req.WithContext(httptrace.WithClientTrace(context.Background(), trace))
+	if req.ContentLength > 0 {
+		req.Body = &hookBody{req.Body, fire}
+	}
+	rw := &hookRW{rec: httptest.NewRecorder(), fire: fire}
+	var panicked any
+	func() {
+		defer func() { panicked = recover() }()
+		st.h.ServeHTTP(rw, req)
+	}()
+	n.o = outcome{parsed: true, v: v, status: rw.rec.Code, body: rw.rec.Body.String(), panicked: panicked}
+}
+
+// schedResult is an executed schedule.
+type schedResult struct {
+	ps   []*pending
+	recs []seen
+	// flLine is the model op for the whole schedule and flReal what the backend
+	// received, in order; ordered is false when the order of arrival at the
+	// backend is not determined by the schedule.
+	flLine, flReal string
+	ordered        bool
+}
+
+// pointPhase places a point relative to the two events of the model's
+// schedules: before Rewrite ("pre"), between Rewrite and the arrival of the
+// request at the backend ("mid"), after that ("post"); "racy" points lie in
+// between, but children served there run concurrently with the parent's
+// delivery (the dial goroutine; the flush that follows WroteRequest).
+func pointPhase(pt string) string {
+	switch pt {
+	case "rw.Header", "rw.CloseNotify":
+		return "pre"
+	case "GetConn", "GotConn", "WroteHeaderField", "WroteHeaders", "Body.Read":
+		return "mid"
+	case "GotFirstResponseByte", "rw.WriteHeader":
+		return "post"
+	default:
+		return "racy"
+	}
+}
+
+func (run *ilvRun) wait() {
+	run.mu.Lock()
+	for run.running > 0 {
+		run.cond.Wait()
+	}
+	run.closed = true
+	run.mu.Unlock()
+}
+
+func newRun(w *world) (run *ilvRun) {
+	run = &ilvRun{w: w}
+	run.cond = sync.NewCond(&run.mu)
+
+	return run
+}
+
+// runSchedule executes the schedule rooted at root.
+func (w *world) runSchedule(r *hlib.Result, root *ilvNode, drain []*ilvNode) (res *schedResult) {
+	res = &schedResult{ordered: true}
+	w.late = append(w.late, w.takeRecs()...)
+	var desc strings.Builder
+	root.describe(&desc)
+	root.walk(func(n *ilvNode) { n.C.InFlightWith = desc.String() })
+	idx := map[*ilvNode]int{}
+	var evs []string
+	for _, d := range drain {
+		// Served before the schedule: the backend closes their connections,
+		// which leaves the transport of the stand without idle connections, so
+		// that the root has to dial (ConnectStart, ConnectDone).
+		d.C.InFlightWith = "before " + desc.String()
+		run0 := newRun(w)
+		run0.serve(d)
+		run0.wait()
+		idx[d] = len(idx)
+		evs = append(evs, fmt.Sprintf("r%d,s%d", idx[d], idx[d]))
+	}
+	run := newRun(w)
+	run.serve(root)
+	// A point reached on a goroutine of the transport may still be serving its
+	// children (ConnectDone of a dial that lost against an idle connection).
+	run.wait()
+	var seq []*ilvNode
+	root.walk(func(n *ilvNode) {
+		idx[n] = len(idx)
+		seq = append(seq, n)
+	})
+	// events lists the model events of n and of the children served at its
+	// point.
+	var events func(n *ilvNode)
+	events = func(n *ilvNode) {
+		rw, sd := fmt.Sprintf("r%d", idx[n]), fmt.Sprintf("s%d", idx[n])
+		kids := func() {
+			for _, k := range n.Kids {
+				events(k)
+			}
+		}
+		phase := pointPhase(n.At)
+		switch {
+		case !n.fired:
+			evs = append(evs, rw, sd)
+		case phase == "pre":
+			kids()
+			evs = append(evs, rw, sd)
+		case phase == "post":
+			evs = append(evs, rw, sd)
+			kids()
+		default:
+			if phase == "racy" {
+				res.ordered = false
+			}
+			evs = append(evs, rw)
+			kids()
+			evs = append(evs, sd)
+		}
+	}
+	events(root)
+	// Children of a point that was never reached (no body, no dial, answered
+	// locally) are served afterwards, on their own.
+	for i := 0; i < len(seq); i++ {
+		n := seq[i]
+		if !n.fired {
+			for _, k := range n.Kids {
+				run2 := newRun(w)
+				run2.serve(k)
+				run2.wait()
+				events(k)
+			}
+		}
+	}
+	sameBase := true
+	for _, n := range append(append([]*ilvNode{}, drain...), seq...) {
+		if n.fired {
+			r.Count("ilv.point-reached." + n.At)
+		} else if len(n.Kids) > 0 {
+			r.Count("ilv.point-not-reached." + n.At)
+		}
+		res.ps = append(res.ps, &pending{n.C, n.o})
+		sameBase = sameBase && w.stands[n.C.Stand].base == w.stands[root.C.Stand].base
+	}
+	res.recs = w.takeRecs()
+	if !sameBase {
+		// The model's schedules have one target URL.
+		r.Count("ilv.schedule-over-several-base-paths")
+
+		return res
+	}
+	var fl strings.Builder
+	fmt.Fprintf(&fl, "fl %s %s %s", hx(w.stands[root.C.Stand].base), hx(w.ua), strings.Join(evs, ","))
+	byID := map[string]int{}
+	for i, p := range res.ps {
+		byID[fmt.Sprint(p.c.ID)] = i
+		v := p.o.v
+		fmt.Fprintf(&fl, " %s %s %s %d", hx(v.Method), hx(p.c.Target), hx(v.Remote), func() (n int) {
+			for _, vs := range v.Hdr {
+				n += len(vs)
+			}
+
+			return n
+		}())
+		names := make([]string, 0, len(v.Hdr))
+		for n := range v.Hdr {
+			names = append(names, n)
+		}
+		sort.Strings(names)
+		for _, n := range names {
+			for _, val := range v.Hdr[n] {
+				fmt.Fprintf(&fl, " %s %s", hx(n), hx(val))
+			}
+		}
+	}
+	var real []string
+	for _, rec := range res.recs {
+		if i, ok := byID[rec.Hdr.Get(caseHdr)]; ok {
+			real = append(real, fmt.Sprintf("%d:%s:proxy %s %s", i, hx(rec.Method), hx(rec.Path), showHdrs(rec.Hdr)))
+		}
+	}
+	res.flLine, res.flReal = fl.String(), strings.Join(real, " | ")
+	if len(real) == 0 {
+		res.flReal = "-"
+	}
+
+	return res
+}
+
+// sortedLog orders the entries of a backend log.
+func sortedLog(s string) string {
+	parts := strings.Split(s, " | ")
+	sort.Strings(parts)
+
+	return strings.Join(parts, " | ")
+}
+
+// genDrain returns the requests that empty the idle pool of the root's stand
+// (net/http keeps two idle connections per host), or nil.
+func (w *world) genDrain(rng *rand.Rand, root *ilvNode, cold bool) (drain []*ilvNode) {
+	if !cold {
+		return nil
+	}
+	for i := 0; i < 3; i++ {
+		c := w.genFlightCase(rng, root.C.Stand, rng.IntN(4))
+		c.Remote, c.WantIP = idIPOf(c.ID)
+		c.BadRem = false
+		c.Hdrs = append(c.Hdrs, hdrKV{closeHdr, "1"})
+		drain = append(drain, &ilvNode{C: c})
+	}
+
+	return drain
+}
+
+// bareStands are the stands with a wrapped in-process handler.
+func (w *world) bareStands() (idx []int) {
+	for i, st := range w.stands {
+		if !st.svc {
+			idx = append(idx, i)
+		}
+	}
+
+	return idx
+}
+
+// ilvCampaign serves requests while other requests are in flight, at chosen
+// points, without any real concurrency: (1) every ordered pair of kinds of
+// requests x every point x {same handler, the twin handler that shares the
+// target URL value}; (2) random schedules up to depth three with several
+// children, over all bare stands.
+func (w *world) ilvCampaign(o *hlib.Opts, r *hlib.Result, m *hlib.Model, rng *rand.Rand) {
+	var ps []*pending
+	var recs []seen
+	var scheds []*schedResult
+	add := func(res *schedResult) {
+		ps, recs = append(ps, res.ps...), append(recs, res.recs...)
+		if res.flLine != "" {
+			scheds = append(scheds, res)
+		}
+	}
+	flushPs := func() {
+		for _, st := range w.stands {
+			st.takeViews()
+		}
+		w.evaluate(r, m, ps, recs, "ilv")
+		// The whole schedule against the model: what the backend received, in
+		// order (as a multiset where the schedule does not determine the order).
+		lines := make([]string, len(scheds))
+		for i, sc := range scheds {
+			lines[i] = sc.flLine
+		}
+		for i, ans := range m.Batch(lines) {
+			sc := scheds[i]
+			r.Traces++
+			want, got := ans, sc.flReal
+			if sc.ordered {
+				r.Count("ilv.schedule-compared-in-order")
+			} else {
+				r.Count("ilv.schedule-compared-as-multiset")
+				want, got = sortedLog(want), sortedLog(got)
+			}
+			if want != got {
+				r.Disagree("flight", fmt.Sprintf("schedule %s: model says the backend receives %q, it received %q", sc.ps[len(sc.ps)-1].c.InFlightWith, want, got),
+					map[string]any{"model_line": sc.flLine})
+			}
+		}
+		ps, recs, scheds = nil, nil, nil
+	}
+	w.late = append(w.late, w.takeRecs()...)
+	nKinds := 6
 	if o.Thorough() {
-		workers, per = 16, 1500
+		nKinds = len(flightKinds)
 	}
-	type want struct {
-		c       *reqCase
-		forward bool // must not be forwarded when false
-	}
-	wants := map[string]want{}
-	plans := make([][]*reqCase, workers)
-	for k := 0; k < workers; k++ {
-		for i := 0; i < per; i++ {
-			ip := fmt.Sprintf("198.18.%d.%d", k, i%250+1)
-			remote := ip + ":4711"
-			if k%4 == 3 {
-				ip = fmt.Sprintf("2001:db8:%x::%x", k, i+1)
-				remote = "[" + ip + "]:4711"
-			}
-			marker := fmt.Sprintf("c%d-%d", k, i)
-			c := &reqCase{Remote: remote, WantIP: ip}
-			forward := true
-			switch rng.IntN(6) {
-			case 0:
-				c.Method, c.Target = "GET", "/linkip/dev/enc"
-			case 1:
-				c.Method, c.Target = "GET", "/linkip/dev/enc/status"
-			case 2:
-				c.Method, c.Target = "POST", "/ddns/dev/enc/example.com"
-			case 3:
-				c.Method, c.Target = "POST", "/linkip/dev/enc"
-			case 4:
-				c.Method, c.Target, forward = "GET", "/linkip/dev/enc/other", false
-			default:
-				c.Method, c.Target, forward = "PUT", "/ddns/dev/enc/example.com", false
-			}
-			c.Hdrs = []hdrKV{{"X-Custom", marker}}
-			for _, n := range []string{"X-Connecting-IP", "X-Real-IP", "X-Forwarded-For", "CF-Connecting-IP"} {
-				if rng.IntN(2) == 0 {
-					c.Hdrs = append(c.Hdrs, hdrKV{n, "6.6.6.6"})
+	// Points at which nothing runs in parallel come first; once a schedule has
+	// produced a failing input the campaign stops: code that shares state
+	// between requests can take the process down when requests really run in
+	// parallel (concurrent map writes are fatal, not a panic).
+	found := func() bool { return len(r.Violations) > 0 }
+	for _, racy := range []bool{false, true} {
+		for a := 0; a < nKinds && !found(); a++ {
+			for b := 0; b < nKinds; b++ {
+				if !flightKinds[a].forward && !flightKinds[b].forward {
+					continue
+				}
+				for _, pt := range ilvPoints {
+					if (pointPhase(pt) == "racy") != racy {
+						continue
+					}
+					if !flightKinds[a].forward && !strings.HasPrefix(pt, "rw.") {
+						// a request answered locally never reaches the transport
+						continue
+					}
+					for _, sb := range []int{0, w.twinIdx} {
+						root := &ilvNode{C: w.genFlightCase(rng, 0, a), At: pt, Kids: []*ilvNode{{C: w.genFlightCase(rng, sb, b)}}}
+						if pt == "Body.Read" && root.C.Method != "GET" {
+							root.C.Body = fmt.Sprintf("ip=%d", root.C.ID)
+						}
+						add(w.runSchedule(r, root, w.genDrain(rng, root, sb == 0 || racy)))
+					}
 				}
 			}
-			if rng.IntN(4) == 0 {
-				c.Hdrs = append(c.Hdrs, hdrKV{"Connection", "X-Connecting-IP"})
-			}
-			wants[marker] = want{c, forward}
-			plans[k] = append(plans[k], c)
+			flushPs()
 		}
 	}
-	st := w.stands[0]
-	w.takeRecs()
-	st.takeViews()
-	var wg sync.WaitGroup
-	panics := make([]any, workers)
-	for k := 0; k < workers; k++ {
-		wg.Add(1)
-		go func(k int) {
-			defer wg.Done()
-			defer func() { panics[k] = recover() }()
-			for _, c := range plans[k] {
-				req, err := http.ReadRequest(bufio.NewReader(bytes.NewReader(c.raw())))
-				hlib.Must(err)
-				req.RemoteAddr = c.Remote
-				st.h.ServeHTTP(httptest.NewRecorder(), req)
-			}
-		}(k)
-	}
-	wg.Wait()
-	st.takeViews()
-	recs := w.takeRecs()
-	for k, p := range panics {
-		if p != nil {
-			r.Violate("handler-panic", fmt.Sprintf("handler panicked under concurrent requests: %v", p), map[string]any{"worker": k})
-		}
-	}
-	seenMarker := map[string]int{}
-	for _, b := range recs {
-		if b.Hdr.Get(caseHdr) != "" {
-			w.late = append(w.late, b)
+	if found() {
+		r.Count("ilv.stopped-after-violation")
 
-			continue
+		return
+	}
+	r.Count("ilv.pairs-x-points-exhaustive")
+	n := 1200
+	if o.Thorough() {
+		n = 12000
+	}
+	bare := w.bareStands()
+	pickStand := func() int {
+		switch rng.IntN(8) {
+		case 0:
+			return bare[rng.IntN(len(bare))]
+		case 1, 2, 3:
+			return w.twinIdx
+		default:
+			return 0
 		}
-		marker := b.Hdr.Get("X-Custom")
-		wt, ok := wants[marker]
-		replay := map[string]any{"backend_saw": b, "how": fmt.Sprintf("%d goroutines, each sending %d requests with its own RemoteAddr through one linkedIPHandler", workers, per)}
-		if !ok {
-			r.Violate("backend-contacted-twice", fmt.Sprintf("backend saw a request with unknown marker %q", marker), replay)
-
-			continue
-		}
-		replay["case"], replay["raw_request"] = wt.c, string(wt.c.raw())
-		seenMarker[marker]++
-		if seenMarker[marker] > 1 {
-			r.Violate("backend-contacted-twice", "one request caused several backend requests (concurrent)", replay)
-		}
-		if !wt.forward {
-			r.Violate("forwarded-undocumented-shape:concurrent", fmt.Sprintf("backend contacted for %s %q", wt.c.Method, wt.c.Target), replay)
-		}
-		if got := b.Hdr["X-Connecting-Ip"]; len(got) != 1 || got[0] != wt.c.WantIP {
-			r.Violate("client-ip-header-wrong:concurrent", fmt.Sprintf("forwarded X-Connecting-IP = %q, peer of this request is %s", got, wt.c.WantIP), replay)
-		}
-		for _, n := range forwardingNames {
-			if vs, ok := b.Hdr[n]; ok {
-				r.Violate("forged-forwarding-header-forwarded:"+n, fmt.Sprintf("client-supplied %s: %q reached the backend (concurrent)", n, vs), replay)
+	}
+	var gen func(depth int) *ilvNode
+	gen = func(depth int) *ilvNode {
+		nd := &ilvNode{C: w.genFlightCase(rng, pickStand(), -1)}
+		if depth < 3 && (depth == 0 || rng.IntN(2) == 0) {
+			nd.At = pick(rng, ilvPoints)
+			if nd.C.BadRem || !websvc.VerifC19ShouldProxy(nd.C.Method, nd.C.Target) {
+				// answered locally: only the ResponseWriter's points are reached
+				nd.At = pick(rng, []string{"rw.Header", "rw.WriteHeader"})
+			} else if nd.At == "Body.Read" && nd.C.Method != "GET" {
+				nd.C.Body = fmt.Sprintf("ip=%d", nd.C.ID)
+			}
+			for k := 1 + rng.IntN(2); k > 0; k-- {
+				nd.Kids = append(nd.Kids, gen(depth+1))
 			}
 		}
-		r.Count("conc.forwarded")
+
+		return nd
 	}
-	for marker, wt := range wants {
-		r.Case("conc|"+wt.c.canon(), wt.forward)
-		if wt.forward && seenMarker[marker] == 0 {
-			r.Count("conc.documented-request-not-forwarded")
+	for i := 0; i < n; i++ {
+		root := gen(0)
+		add(w.runSchedule(r, root, w.genDrain(rng, root, rng.IntN(2) == 0 || strings.HasPrefix(root.At, "Connect"))))
+		if len(ps) >= 400 {
+			flushPs()
+			if found() {
+				r.Count("ilv.stopped-after-violation")
+
+				return
+			}
 		}
 	}
-	r.Count(fmt.Sprintf("conc.workers-%d", workers))
-	w.settleLate(r)
+	flushPs()
+}
+
+// ----- concurrent requests (real parallelism) -----
+
+var errNotSent = fmt.Errorf("not sent")
+
+// concCampaign sends requests at the same time, in many short rounds that
+// start behind a barrier: in-process through the bare stands (every request
+// with its own peer address) and over TCP through the two bind addresses of the
+// real websvc.Service.  Rounds alternate between one, two and all processors:
+// with one processor a goroutine is left only where it blocks, which for a
+// proxied request is the dial of the backend connection, between Rewrite and
+// the writing of the request line.  Every backend record is checked by the
+// full oracle against the request that carried its marker.
+func (w *world) concCampaign(o *hlib.Opts, r *hlib.Result, m *hlib.Model, rng *rand.Rand) {
+	rounds, inproc, tcp, per := 24, 12, 6, 12
+	if o.Thorough() {
+		rounds, inproc, tcp, per = 150, 24, 8, 16
+	}
+	procs := runtime.GOMAXPROCS(0)
+	defer runtime.GOMAXPROCS(procs)
+	bare := w.bareStands()
+	for round := 0; round < rounds; round++ {
+		switch round % 3 {
+		case 0:
+			runtime.GOMAXPROCS(1)
+		case 1:
+			runtime.GOMAXPROCS(2)
+		default:
+			runtime.GOMAXPROCS(procs)
+		}
+		workers := inproc + tcp
+		plans := make([][]*pending, workers)
+		var ps []*pending
+		for k := 0; k < workers; k++ {
+			standIdx := 0
+			switch {
+			case k >= inproc:
+				standIdx = w.svcIdx[k%len(w.svcIdx)]
+			case k%4 == 1:
+				standIdx = w.twinIdx
+			case k%8 == 2:
+				standIdx = bare[rng.IntN(len(bare))]
+			}
+			for i := 0; i < per; i++ {
+				c := w.genFlightCase(rng, standIdx, -1)
+				c.InFlightWith = fmt.Sprintf("round %d: %d goroutines with %d requests each through the bare handlers, %d TCP clients of the real service; GOMAXPROCS %d",
+					round, inproc, per, tcp, runtime.GOMAXPROCS(0))
+				if k >= inproc {
+					c.TCP, c.Remote, c.BadRem = true, "", false
+				}
+				p := &pending{c: c, o: outcome{ioErr: errNotSent}}
+				plans[k] = append(plans[k], p)
+				ps = append(ps, p)
+			}
+		}
+		w.late = append(w.late, w.takeRecs()...)
+		start := make(chan struct{})
+		var wg sync.WaitGroup
+		for k := 0; k < workers; k++ {
+			wg.Add(1)
+			go func(k int) {
+				defer wg.Done()
+				var conn net.Conn
+				var br *bufio.Reader
+				if k >= inproc {
+					var err error
+					conn, err = net.Dial("tcp", w.stands[plans[k][0].c.Stand].tcpAddr)
+					hlib.Must(err)
+					defer conn.Close()
+					br = bufio.NewReader(conn)
+				}
+				<-start
+				for _, p := range plans[k] {
+					req, v := parseCase(p.c)
+					p.o = outcome{parsed: true, v: v}
+					if conn == nil {
+						rec := httptest.NewRecorder()
+						func() {
+							defer func() { p.o.panicked = recover() }()
+							w.stands[p.c.Stand].h.ServeHTTP(rec, req)
+						}()
+						p.o.status, p.o.body = rec.Code, rec.Body.String()
+
+						continue
+					}
+					p.c.WantIP = conn.LocalAddr().(*net.TCPAddr).IP.String()
+					p.o.v.Remote = conn.LocalAddr().String()
+					_, err := conn.Write(p.c.raw())
+					hlib.Must(err)
+					_ = conn.SetReadDeadline(time.Now().Add(30 * time.Second))
+					resp, err := http.ReadResponse(br, &http.Request{Method: p.c.Method})
+					if err != nil {
+						p.o.ioErr, p.o.parsed = err, false
+
+						return
+					}
+					b, _ := io.ReadAll(resp.Body)
+					_ = resp.Body.Close()
+					p.o.status, p.o.body = resp.StatusCode, string(b)
+					if resp.Close {
+						// "Connection: close" of the client was honoured.
+						conn.Close()
+						conn, err = net.Dial("tcp", w.stands[p.c.Stand].tcpAddr)
+						hlib.Must(err)
+						br = bufio.NewReader(conn)
+					}
+				}
+			}(k)
+		}
+		close(start)
+		wg.Wait()
+		runtime.GOMAXPROCS(procs)
+		for _, st := range w.stands {
+			st.takeViews()
+		}
+		for _, p := range ps {
+			if p.o.ioErr != nil {
+				r.Count("conc.tcp-io-error")
+			}
+		}
+		w.evaluate(r, m, ps, w.takeRecs(), "conc")
+	}
+	r.Count(fmt.Sprintf("conc.rounds-%d.workers-%d+%d", rounds, inproc, tcp))
 }
 
 // fixedCases are always run: the documented shapes, the Lean counter-example
@@ -1390,6 +2064,13 @@ func main() {
 		"extra segments x forged client-IP/forwarding/Connection headers) are sent in-process (chosen peer address) and over " +
 		"real TCP to the real linkedIPHandler mounted on a bare http.Server in front of a recording backend; the outcome " +
 		"(404/robots/500/forwarded path + watched headers) is compared with the Lean model and checked by an independent oracle; " +
+		"requests in flight together: (a) deterministic schedules - a request is served completely from inside a hook of another one " +
+		"(ResponseWriter.Header/CloseNotify/WriteHeader, httptrace GetConn/ConnectStart/ConnectDone/GotConn/WroteHeaderField/WroteHeaders/" +
+		"WroteRequest/GotFirstResponseByte, Body.Read), every ordered pair of request kinds x every point x {same handler, twin handler sharing " +
+		"the target URL value}, plus random schedules of depth <= 3, each compared with the Lean schedule model (op fl: backend log in order) " +
+		"and (b) rounds of really parallel requests (bare handlers and two bind addresses of a real websvc.Service; GOMAXPROCS 1, 2, all); " +
+		"every request there has its own peer address, device segment and marker, and every backend record is checked by the same oracle " +
+		"against the request that carried its marker (method, decoded path = the client's own, X-Connecting-IP = its peer); " +
 		"shouldProxy, the dot-segment normaliser and SplitHost are additionally compared on their own; a case is non-trivial when " +
 		"it was forwarded, answered 500/robots, or refused under an API prefix; distinct = distinct canonical requests"
 	m := hlib.StartModel(o.Model, "C19")
@@ -1397,7 +2078,7 @@ func main() {
 	w := newWorld()
 	defer w.backend.Close()
 	w.startService()
-	svcIdx := len(w.stands) - 1
+	svcIdx := w.svcIdx[0]
 	defer func() { _ = w.svc.Shutdown(context.Background()) }()
 
 	fc := fixedCases()
@@ -1428,7 +2109,16 @@ func main() {
 	ec := editCases(o.Rand("edit"), nEdit2)
 	w.reqCampaign(o, r, m, ec)
 	r.Count("req.edit-distance-1-exhaustive")
-	w.concCampaign(o, r, o.Rand("conc"))
+	w.ilvCampaign(o, r, m, o.Rand("ilv"))
+	if len(r.Violations) == 0 {
+		// Real parallelism adds no information once a schedule without any
+		// parallelism has produced a failing input, and code that shares state
+		// between requests can take the whole process down with it (concurrent
+		// map writes are fatal, not a panic).
+		w.concCampaign(o, r, m, o.Rand("conc"))
+	} else {
+		r.Count("conc.skipped-after-violation")
+	}
 	if o.Thorough() {
 		// Exhaustive small scope through the whole handler.
 		var ex []*reqCase
